@@ -330,6 +330,7 @@ def run(ctx: Ctx, rep: Report) -> None:
     # speaks for the credentials the caller configured if a change of credential class replaces that model
     from . import c18
 
+    rep.rule("C07-R8", "the message id sent and the message id compared are the ids on the wire (header encoder and message decoder neither clamp nor mask; shared with C05-R4 / C06-R3)", floor=5)
     rep.rule("C07-R7", "a mismatching response always surfaces: InvalidResponseId is not a subclass of an exception the walk loop swallows", floor=1)
     rep.rule("C07-R6", "the plug-ins that test version and community are those selected by the credentials in use (a change of credential class replaces the message-processing model)", floor=1)
     sub = ctx.sub_run("c18", rep)
@@ -345,6 +346,10 @@ def run(ctx: Ctx, rep: Report) -> None:
             if isinstance(n, ast.Raise) and n.exc is not None:
                 raised += [c for c in (ctx.exc_classes(vfn, n.exc) or []) if c not in raised]
     check_not_quietly_caught(ctx, rep, "C07-R7", raised, "raised for a response id that does not match")
+    # the ids compared are the ids on the wire: the header encoder emits the message id it was given, the message
+    # decoder hands out the one it received (no clamping / masking on either side)
+    rep.adopt_rules(ctx.sub_run("c05", rep), "C07-R8", ["C05-R4"], containing="msgID")
+    rep.adopt_rules(ctx.sub_run("c06", rep), "C07-R8", ["C06-R3"], containing="Message.from_sequence")
 
 
 def check_community_model(ctx: Ctx, rep: Report, cls: ClassInfo, want_version: int, rule: str = "C07-R4") -> None:
